@@ -33,7 +33,8 @@ def run(ctx):
     n = 300 if ctx.tier == "quick" else 1500
     ctx.run_shards(build_sizes(ctx), ["--len", str(n)], nshards=4, label="String size boundaries")
     cov = K.mc_coverage(ctx, RULE + "; size boundaries: printf / fromPrintf / append / prepend / resize / reserve / repeated append(char) with every operand length 0..%d on five "
-                                   "initial representations (empty, owned, owned with slack, shared with a copy, literal), exactly sized operands under ASan" % n,
+                                   "initial representations (empty, owned, owned with slack, shared with a copy, literal), exactly sized operands under ASan; case mapping of every byte value "
+                                   "(character and String forms, source of a copy untouched)" % n,
                         {"size_cases": ctx.counters.get("size_cases", 0)})
     cov["traces_validated_against_impl"] += int(ctx.counters.get("size_cases", 0))
     cov["exhaustive"] = not ctx.counters.get("deadline_hit") and not ctx.counters.get("state_cap_hit")
